@@ -284,22 +284,31 @@ struct H {
     static rc::Gen<Case> gen() {
         using namespace rc;
         return gen::map(gen::tuple(gen::resize(60, gen::container<std::vector<uint8_t>>(gen::arbitrary<uint8_t>())), pbt::range<int>(0, 5), pbt::pick<int>({1, 1, 2, 4, 3})),
-                        [](std::tuple<std::vector<uint8_t>, int, int> t) {
-                            Case    c;
-                            Entropy e(std::get<0>(t));
-                            c.position = std::get<1>(t);
-                            c.width    = std::get<2>(t);
-                            c.delivery = int(e.below(4));
-                            c.str      = gen_string(e, c.width == 3 ? 4 : c.width);
-                            if (c.position != 0) { // strings travel through NUL-safe APIs, but keep template positions NUL-free
-                                for (auto &x : c.str) {
-                                    if (x == 0) {
-                                        x = ' ';
-                                    }
-                                }
-                            }
-                            return c;
-                        });
+                        [](std::tuple<std::vector<uint8_t>, int, int> t) { return make_case(std::get<0>(t), std::get<1>(t), std::get<2>(t)); });
+    }
+    static Case make_case(const std::vector<uint8_t> &bytes, int position, int width) {
+        Case    c;
+        Entropy e(bytes);
+        c.position = position;
+        c.width    = width;
+        c.delivery = int(e.below(4));
+        c.str      = gen_string(e, c.width == 3 ? 4 : c.width);
+        if (c.position != 0) { // strings travel through NUL-safe APIs, but keep template positions NUL-free
+            for (auto &x : c.str) {
+                if (x == 0) {
+                    x = ' ';
+                }
+            }
+        }
+        return c;
+    }
+    // coverage-guided mode: selector byte, then entropy
+    static bool from_fuzz(const uint8_t *d, size_t n, Case &c) {
+        pbt::FuzzBytes f(d, n);
+        static const int w[] = {1, 2, 4, 3};
+        uint8_t          s   = f.sel();
+        c = make_case(f.rest(), (s >> 2) % 6, w[s & 3]);
+        return true;
     }
     static std::string to_text(const Case &c) {
         pbt::KV kv;
@@ -374,4 +383,4 @@ struct H {
 
 } // namespace
 
-int main(int argc, char **argv) { return pbt::run_main<H>(argc, argv); }
+PBT_MAIN(H)
